@@ -73,10 +73,23 @@ def gen_cases(ctx):
         cases.append({"kind": "embed", "inpkg": inpkg, "genseed": rng.randrange(1 << 30), "count": 8, "template": t, "formatter": rng.choice(["goimports", "gofmt", "noop"]),
                       "placement": rng.choice(["inpkg", "inpkg-test"]) if inpkg else rng.choice(["xtest", "outpkg", "outpkg-collide"]), "td": c01.td_options(rng, t),
                       "gomod": "plain", "srckind": "ordinary", "shadow": True})
+    # replace-type towards an alias of the same type: the mock must stay assignable, and no neighbouring parameter may change
+    for k, (t, pl) in enumerate((a, b) for a in ("testify", "matryer") for b in ("outpkg", "inpkg-test", "xtest")):
+        cases.append({"kind": "replace-alias", "inpkg": False, "template": t, "formatter": ["gofmt", "noop", "goimports"][k % 3], "placement": pl, "td": {},
+                      "gomod": "plain", "srckind": "ordinary", "shadow": False, "level": ["root", "pkg", "iface"][k % 3]})
     return cases
 
 
+def replace_alias_ifaces():
+    qa = gosrc.Q["ma"]
+    body = ["Send(f %s.T, flags int) (%s.T, []byte, error)" % (qa, qa), "Both(a %s.T, b string, c %s.E, d []int) (%s.E, map[string]int)" % (qa, qa, qa),
+            "Var(x %s.T, rest ...int) %s.T" % (qa, qa), "Ptr(p *%s.T, q %s.T, r [2]int) (%s.T, *%s.T, chan int)" % (qa, qa, qa, qa), "Fn(g %s.T, f func(int) string) (%s.T, func() error)" % (qa, qa)]
+    return [{"name": "RepAlias", "tparams": "", "body": body, "feature": "replace-type.alias-of-same-type", "targs": [], "exported": True, "features": []}]
+
+
 def case_ifaces(case):
+    if case["kind"] == "replace-alias":
+        return replace_alias_ifaces()
     if case["kind"] == "embed":
         g = gosrc.Gen(random.Random(case["genseed"]), inpkg_only=case["inpkg"])
         return [embed_iface(g, i) for i in range(case["count"])]
@@ -170,7 +183,17 @@ def eval_case(ctx, case):
     if not ifaces:
         return [(case, Verdict.skipped("all interfaces of this chunk are C01 known findings"))]
     extra = {}
-    root, info = mockgen.build_module(ctx, case, ifaces)
+    extra_cfg = None
+    if case["kind"] == "replace-alias":
+        ma = gosrc.MOD + "/ext/" + gosrc.FOREIGN["ma"][0]
+        rt = {"replace-type": {ma: {"T": {"pkg-path": ma, "type-name": "A"}}}}
+        if case["level"] == "root":
+            extra_cfg = rt
+        elif case["level"] == "pkg":
+            case = dict(case, td_pkg_cfg=rt)
+        else:
+            case = dict(case, iface_cfg=rt)
+    root, info = mockgen.build_module(ctx, case, ifaces, extra_cfg=extra_cfg)
     if case.get("shadow"):
         sdir = info["srcdir"]
         with open(os.path.join(root, sdir, "shadow.go"), "w") as f:
